@@ -189,3 +189,50 @@ func ExpandedCallees(fn *ssa.Function) []*ssa.Function {
 	walk(fn)
 	return out
 }
+
+
+// ReturnsX lists the returns that end fn when the functions expanded into it
+// are read as part of it: fn's own returns, except those that only hand on
+// the results of an expanded call, plus that callee's returns (recursively).
+func ReturnsX(fn *ssa.Function) []*ssa.Return {
+	var out []*ssa.Return
+	seen := map[*ssa.Function]bool{}
+	var walk func(f *ssa.Function)
+	walk = func(f *ssa.Function) {
+		if seen[f] {
+			return
+		}
+		seen[f] = true
+		for _, b := range f.Blocks {
+			if b == f.Recover || len(b.Instrs) == 0 {
+				continue
+			}
+			ret, ok := b.Instrs[len(b.Instrs)-1].(*ssa.Return)
+			if !ok {
+				continue
+			}
+			var fwd *ssa.Function
+			for _, rv := range ret.Results {
+				var c *ssa.Call
+				switch x := rv.(type) {
+				case *ssa.Call:
+					c = x
+				case *ssa.Extract:
+					c, _ = x.Tuple.(*ssa.Call)
+				}
+				if c != nil {
+					if g := expandedCallee(c); g != nil && g.Signature.Results().Len() == len(ret.Results) {
+						fwd = g
+					}
+				}
+			}
+			if fwd != nil {
+				walk(fwd)
+				continue
+			}
+			out = append(out, ret)
+		}
+	}
+	walk(fn)
+	return out
+}
